@@ -10,6 +10,7 @@ import (
 
 	"verif/mc/engine"
 	"verif/mc/model"
+	"verif/mc/pkgread"
 
 	"github.com/goreleaser/nfpm/v2/files"
 )
@@ -95,7 +96,7 @@ func init() {
 		ID:    "C05",
 		Level: "model_checking",
 		Rule: "every content list of length <=2 (thorough: <=3 over a reduced universe) over destinations x entry kinds x packager tags, prepared for each packager, " +
-			"plus every destination string up to length 6 (thorough 7) over {a,b,/,.}; siblings: every ordered triple over 7 destinations that sort between a path and its children x {file, dir, symlink, tree}; reprepare: a plan prepared for all packagers prepared again for one; run on files.PrepareForPackager and compared with the reference planner; part maporder: every list of <=2 entries over the reduced universe under every map iteration order (woven copy); " +
+			"plus every destination string up to length 6 (thorough 7) over {a,b,/,.}; tree-overlap: a tree at 7 spellings of its destination x an entry of 6 kinds at 10 paths at/inside the tree, both orders; siblings: every ordered triple over 7 destinations that sort between a path and its children x {file, dir, symlink, tree}; reprepare: a plan prepared for all packagers prepared again for one; run on files.PrepareForPackager and compared with the reference planner; part maporder: every list of <=2 entries over the reduced universe under every map iteration order (woven copy); " +
 			"a case is non-trivial when the list has >=1 relevant entry; distinct = distinct (outcome class, planned destination/kind/source set)",
 		Assumptions: []string{
 			"reference planner model/plan.go states the documented denotation",
@@ -178,6 +179,41 @@ func init() {
 					}
 				}
 			}
+			// tree-overlap: a tree next to an entry that lies at or inside one of the tree's own paths, every spelling of the
+			// tree's destination, both orders
+			treeD := []string{"/a", "a", "/a/", "./a", "//a", "/a/.", "/b/../a"}
+			inD := []string{"/a/x", "/a/sub", "/a/sub/y", "/a/emptydir", "/a/sub/l", "a/x", "/a/new", "/a", "/a/sub/", "/a/x/deeper"}
+			inT := []model.Entry{{Src: "etc/app.conf"}, {Type: "dir"}, {Src: "/t", Type: "symlink"}, {Type: "ghost"}, {Src: "etc/app.conf", Type: "config"}, {Src: "tree/sub", Type: "tree"}}
+			for _, td := range treeD {
+				tr := model.Entry{Src: "tree", Dst: td, Type: "tree"}
+				for _, d := range inD {
+					for _, t := range inT {
+						e := t
+						e.Dst = d
+						for _, p := range []string{"deb", "rpm"} {
+							if !yield(C05Case{Part: "tree-overlap", Packager: p, List: []model.Entry{tr, e}}) {
+								return
+							}
+							if !yield(C05Case{Part: "tree-overlap", Packager: p, List: []model.Entry{e, tr}}) {
+								return
+							}
+						}
+					}
+				}
+			}
+			// the deb changelog entry next to a content entry at the changelog's own path: an entry addressed to another
+			// packager does not touch it, an entry that deb itself ships there collides with it
+			for _, tag := range []string{"rpm", "apk", "ipk", "archlinux", "", "deb"} {
+				for _, typ := range []string{"", "config", "dir", "symlink", "ghost", "doc"} {
+					for _, sp := range []string{"/usr/share/doc/pkg/changelog.Debian.gz", "usr/share/doc/pkg/changelog.Debian.gz", "/usr/share/doc/pkg/./changelog.Debian.gz"} {
+						e := c08Entry(typ, tag, 1, false)
+						e.Dst = sp
+						if !yield(C05Case{Part: "changelog", Packager: "deb", List: []model.Entry{e}}) {
+							return
+						}
+					}
+				}
+			}
 			// map-order seam (woven copy): every list of <=2 entries over the reduced universe under
 			// every order of every map iteration of the planner
 			ru := c05Universe(true)
@@ -212,6 +248,52 @@ func init() {
 	})
 }
 
+// checkC05Changelog builds a deb with a changelog and one content entry at the changelog's path.
+func checkC05Changelog(env *engine.Env, c C05Case) engine.Outcome {
+	t := tree(env)
+	var out engine.Outcome
+	out.Nontrivial = true
+	e := c.List[0]
+	d := Setting{Name: "default"}.doc(c.List, t.Root)
+	d["changelog"] = filepath.Join(t.Root, "changelog.yaml")
+	viol := func(sig, format string, a ...any) {
+		out.Violations = append(out.Violations, engine.Violation{Sig: sig, Detail: fmt.Sprintf("deb with changelog and the entry %s\n", descList(c.List)) + fmt.Sprintf(format, a...)})
+	}
+	data, err := buildYAML(d.YAML(), "deb")
+	// does deb itself ship something at that path? rpm-only kinds and entries addressed elsewhere do not
+	ships := model.Relevant(e, "deb") && !model.RPMOnly(e.Type)
+	typ := e.Type
+	if typ == "" {
+		typ = "file"
+	}
+	out.Key = fmt.Sprintf("changelog:%s:%s:%s:err=%v", e.Packager, typ, e.Dst, err != nil)
+	const path = "/usr/share/doc/pkg/changelog.Debian.gz"
+	if ships {
+		if err == nil {
+			viol("plan:collision-missed:changelog:"+typ, "the deb changelog and a %s entry for deb occupy %s; packaging succeeded", typ, path)
+		}
+		return out
+	}
+	if err != nil {
+		viol("plan:false-collision:changelog:"+typ, "the entry is not shipped by deb (packager %q, type %s) but packaging failed: %v", e.Packager, typ, err)
+		return out
+	}
+	pkg, derr := pkgread.Decode("deb", data, env.Tools)
+	if derr != nil {
+		viol("plan:undecodable:changelog", "%v", derr)
+		return out
+	}
+	g := pkg.Entry(path)
+	if g == nil {
+		viol("plan:entries:missing:changelog", "changelog configured, but %s is absent from the deb (an entry addressed to %q sits at that path)", path, e.Packager)
+		return out
+	}
+	if len(g.Data) < 2 || g.Data[0] != 0x1f || g.Data[1] != 0x8b {
+		viol("plan:entries:changelog-replaced", "%s is not the generated gzip changelog (%d bytes)", path, len(g.Data))
+	}
+	return out
+}
+
 func c05MaxLen(env *engine.Env) int {
 	if env.Thorough() {
 		return 7
@@ -238,6 +320,9 @@ func checkC05(env *engine.Env, ci any) engine.Outcome {
 	}
 	if c.Part == "reprepare" {
 		return checkC05Reprepare(env, c)
+	}
+	if c.Part == "changelog" {
+		return checkC05Changelog(env, c)
 	}
 	t := tree(env)
 	var out engine.Outcome
